@@ -1,4 +1,6 @@
 import PEval.Lemmas.APDTBridge
+import PEval.Lemmas.APDTRank
+import PEval.Lemmas.APDTMap
 import PEval.Gen.APTables
 /-!
 # C04, continued: the CODE's decision tables and expressions (regenerated from the source on every run)
@@ -140,5 +142,136 @@ example : decide (Except.ok (areaModel [0, 1, 0]) = (Except.ok (areaModel [1, 0,
   decide +kernel
 example : agree PVal.empty (tpfpSk [0, 1] 1) (tpfpSk [1, 0] 1) = false := by decide +kernel
 example : agree PVal.empty (mapSk ⟨2, [0, 1], [0, 1], false⟩) (mapSk ⟨2, [0, 1], [0, 1], true⟩) = false := by decide +kernel
+
+/-! ## coverage of the rank patterns and the bridge of (a) for all inputs (`PEval/Lemmas/APDTRank.lean`) -/
+
+/-- COVERAGE, any length: the rank pattern `rankPat cs` (entry ↦ number of entries strictly below it) of a list of rationals
+is ordered like the list — in the three forms the bridges ask for — and is one of the enumerated weak orderings
+`countPatterns cs.length` of the tables (a); for ≤ 3 numbers it is among `tpfpShapes` / `patShapes`. Hence "for every input
+of length ≤ 3 some table row applies" is a theorem. -/
+theorem rank_pattern_coverage (cs : List Rat) :
+    (rankPat cs).length = cs.length ∧
+    (∀ i j, i < cs.length → j < cs.length →
+      ((rankPat cs).getD i 0 < (rankPat cs).getD j 0 ↔ cs.getD i 0 < cs.getD j 0)) ∧
+    rankPat cs ∈ countPatterns cs.length ∧
+    (1 ≤ cs.length → cs.length ≤ 3 → (rankPat cs, 1) ∈ tpfpShapes) ∧
+    (cs.length ≤ 3 → rankPat cs ∈ patShapes 0) ∧ (1 ≤ cs.length → cs.length ≤ 3 → rankPat cs ∈ patShapes 1) :=
+  ⟨rankPat_length cs, rankPat_iso cs, rankPat_mem_countPatterns cs, rankPat_mem_tpfpShapes cs,
+    rankPat_mem_patShapes 0 cs (Nat.zero_le _), rankPat_mem_patShapes 1 cs⟩
+
+/-- (a) for ALL inputs, model side: whenever the model's `Ap` answers, its `tp_list` / `fp_list` / "ap defined" are the
+skeleton `tpfpAtoms pat G` (ranking by the pattern, classification over the atoms, cumulative sums) read at the valuation
+`valAP` and the weights `envW` the result list induces — any number of results, every pattern ordered like the confidences -/
+theorem tpfp_skeleton_is_model (tm : TpMetric) (m : Mode) (targets : List Label) (thrs : List Rat) (G : Nat)
+    (rs : List Res) (pat : List Nat) (hlen : pat.length = rs.length)
+    (hiso : ∀ i j, i < rs.length → j < rs.length →
+      (pat.getD i 0 < pat.getD j 0 ↔ (rs.map Res.conf).getD i 0 < (rs.map Res.conf).getD j 0))
+    (out : ApOut) (hout : apOf tm m targets thrs G rs = .ok out) :
+    (tpfpAtoms pat G (valAP m targets thrs rs)).read (envW tm rs) = (out.tpList, out.fpList, out.ap.isSome) :=
+  tpfp_bridge tm m targets thrs G rs pat hlen hiso out hout
+
+/-- the row of the tables (a) that applies to a result list: no result — keyed by the ground-truth count; else the rank
+pattern of the confidences (tabulated with G = 1: the count does not enter the lists of a non-empty input, `tpfpAtoms_G`) -/
+def tpfpRowKey (G : Nat) (rs : List Res) : List Nat × Nat :=
+  if rs.isEmpty then ([], G) else (rankPat (rs.map Res.conf), 1)
+
+/-- WHAT THE CODE'S TABLE (a) SAYS ABOUT EVERY INPUT OF LENGTH ≤ 3 (coverage ∘ table theorem ∘ bridge): for every result
+list of 1 … 3 results (any confidences, ties included; any labels, thresholds, mode, ground-truth count), and for the empty
+list with 0 or 2 ground truths, the generated rows contain the row of that input, and the tree of that row, evaluated at the
+valuation of the input and read at its weights, gives exactly the `tp_list`, `fp_list` and "ap is not inf" of the model's
+`Ap` (whenever that answers). -/
+theorem table_tpfp_is_model (tm : TpMetric) (m : Mode) (targets : List Label) (thrs : List Rat) (G : Nat) (rs : List Res)
+    (hshape : (1 ≤ rs.length ∧ rs.length ≤ 3) ∨ (rs = [] ∧ (G = 0 ∨ G = 2)))
+    (out : ApOut) (hout : apOf tm m targets thrs G rs = .ok out) (hrows : Gen.APDT.tpfpRows ≠ []) :
+    ∃ r ∈ Gen.APDT.tpfpRows, (r.1, r.2.1) = tpfpRowKey G rs ∧
+      ∃ leaf, r.2.2.eval (valAP m targets thrs rs) = .ok leaf ∧
+        leaf.read (envW tm rs) = (out.tpList, out.fpList, out.ap.isSome) := by
+  have hshapes : Gen.APDT.tpfpRows.map (fun r => (r.1, r.2.1)) = tpfpShapes := by
+    rcases tpfp_code_table_eq_model.1 with h | h
+    · exact absurd h hrows
+    · exact h
+  have hkey : tpfpRowKey G rs ∈ tpfpShapes := by
+    unfold tpfpRowKey
+    rcases hshape with ⟨h1, h3⟩ | ⟨h0, hG⟩
+    · have hne : rs.isEmpty = false := by cases rs <;> simp at h1 ⊢
+      simp only [hne, Bool.false_eq_true, if_false]
+      exact rankPat_mem_tpfpShapes _ (by simpa using h1) (by simpa using h3)
+    · subst h0
+      rcases hG with rfl | rfl <;> decide
+  rw [← hshapes, List.mem_map] at hkey
+  obtain ⟨r, hr, hk⟩ := hkey
+  refine ⟨r, hr, hk, tpfpAtoms r.1 r.2.1 (valAP m targets thrs rs),
+    tpfp_code_table_eq_model.2 r hr _ (valAP_consistent m targets thrs rs), ?_⟩
+  have hk1 : r.1 = (tpfpRowKey G rs).1 := by rw [← hk]
+  have hk2 : r.2.1 = (tpfpRowKey G rs).2 := by rw [← hk]
+  unfold tpfpRowKey at hk1 hk2
+  rcases hshape with ⟨h1, h3⟩ | ⟨h0, _⟩
+  · have hne : rs.isEmpty = false := by cases rs <;> simp at h1 ⊢
+    simp only [hne, Bool.false_eq_true, if_false] at hk1 hk2
+    have hp : r.1 ≠ [] := by
+      intro h
+      have := congrArg List.length h
+      rw [hk1, rankPat_length, List.length_map, List.length_nil] at this
+      omega
+    rw [tpfpAtoms_G r.1 hp r.2.1 G, hk1]
+    exact tpfp_bridge tm m targets thrs G rs _ (by rw [rankPat_length, List.length_map])
+      (fun i j hi hj => rankPat_iso _ i j (by simpa using hi) (by simpa using hj)) out hout
+  · subst h0
+    simp only [List.isEmpty_nil, if_true] at hk1 hk2
+    rw [hk1, hk2]
+    exact tpfp_bridge tm m targets thrs G [] [] rfl (fun i j hi _ => absurd hi (by simp)) out hout
+
+/-- the same coverage for the area table (b2): for EVERY precision / recall lists of length ≤ 3 the generated rows contain a
+row whose pattern is ordered like the precisions (the rank pattern), and its polynomial, read at the numbers, is the model's
+`calculateAp` = the all-point interpolated area -/
+theorem table_area_covers_every_input (ps rs : List Rat) (hr : rs.length = ps.length) (h3 : ps.length ≤ 3)
+    (hrows : Gen.APDT.areaRows ≠ []) :
+    ∃ r ∈ Gen.APDT.areaRows, r.1 = rankPat ps ∧
+      ∃ nf, r.2 = .ok nf ∧ evalNF (envPR ps rs) nf = calculateAp ps rs ∧ evalNF (envPR ps rs) nf = apSpec ps rs := by
+  have hshapes : Gen.APDT.areaRows.map (·.1) = patShapes 0 := by
+    rcases area_code_eq_model.1 with h | h
+    · exact absurd h hrows
+    · exact h
+  have hkey := rankPat_mem_patShapes 0 ps (Nat.zero_le _) h3
+  rw [← hshapes, List.mem_map] at hkey
+  obtain ⟨r, hrm, hk⟩ := hkey
+  refine ⟨r, hrm, hk, ?_⟩
+  exact table_area_is_interpolated_area ps rs hr r hrm (by rw [hk, rankPat_length])
+    (fun i j hi hj => by rw [hk]; exact rankPat_iso_gt ps i j hi hj)
+
+/-- non-vacuity of the bridge: a tie and a strictly larger confidence — pattern `[0, 2, 0]`, ranking `[1, 0, 2]` (stable), a tabulated shape -/
+example : rankPat [1, 2, 1] = [0, 2, 0] ∧ sortIdx [0, 2, 0] = [1, 0, 2] ∧ ([0, 2, 0], 1) ∈ tpfpShapes := by decide +kernel
+
+/-! ## the bridge of (c) for all inputs (`PEval/Lemmas/APDTMap.lean`) -/
+
+/-- (c) for ALL inputs, model side (any number of labels, any dict key order, extra keys): whenever the model's `Map`
+answers — pairwise distinct target labels, one threshold per label — the skeleton `mapAtoms` at the shape of the input
+(`shapeOfMap`: the dict keys as positions in the target list) and at its valuation (`valMap`: which buckets are empty)
+answers a leaf that reads (`MapLeafReads`) as the model's output: the `Ap` / APH call of label `i`, read on the input
+(`readCall`: dict entries and threshold of the label at position `i`), is the model's `Ap` / APH of label `i`, and the
+mAP / mAPH normal forms read at the per-label values are the model's mAP / mAPH -/
+theorem map_skeleton_is_model (m : Mode) (is2d : Bool) (targets : List Label) (thrs : List Rat)
+    (buckets : List (Label × List (List Res))) (nums : List (Label × Nat)) (hnd : targets.Nodup)
+    (hlen : thrs.length = targets.length) (out : MapOut) (hout : mapOf m is2d targets thrs buckets nums = .ok out) :
+    ∃ leaf, mapAtoms (shapeOfMap is2d targets buckets nums) (valMap targets buckets) = .ok leaf ∧
+      MapLeafReads m targets thrs buckets nums leaf out :=
+  map_bridge m is2d targets thrs buckets nums hnd hlen out hout
+
+/-- WHAT THE CODE'S TABLE (c) SAYS ABOUT EVERY INPUT OF A TABULATED SHAPE (table theorem ∘ bridge): for every row and every
+input of the row's shape on which the model's `Map` answers, the tree of the real `Map.__init__`, evaluated at the
+valuation of the input, gives a leaf that reads as the model's output (per-label `Ap`s built from the entries and the
+threshold of THEIR label, mAP / mAPH = means over the labels with a result) -/
+theorem table_map_is_model (m : Mode) (is2d : Bool) (targets : List Label) (thrs : List Rat)
+    (buckets : List (Label × List (List Res))) (nums : List (Label × Nat)) (hnd : targets.Nodup)
+    (hlen : thrs.length = targets.length) (out : MapOut) (hout : mapOf m is2d targets thrs buckets nums = .ok out) :
+    ∀ r ∈ Gen.APDT.mapRows, r.1 = shapeOfMap is2d targets buckets nums →
+      ∃ leaf, r.2.eval (valMap targets buckets) = .ok leaf ∧ MapLeafReads m targets thrs buckets nums leaf out := by
+  intro r hr hshape
+  obtain ⟨leaf, h1, h2⟩ := map_bridge m is2d targets thrs buckets nums hnd hlen out hout
+  refine ⟨leaf, ?_, h2⟩
+  rw [map_code_table_eq_model.2 r hr _ (valMap_consistent targets buckets), hshape, h1]
+
+/-- non-vacuity: a required shape is the shape of a concrete input (labels 5, 7; result dict keyed 7, 5) -/
+example : shapeOfMap false [5, 7] [(7, []), (5, [])] [(5, 0), (7, 0)] = ⟨2, [1, 0], [0, 1], false⟩ := by decide
 
 end PEval.C04
